@@ -35,6 +35,7 @@ on the record AFTER exclusion (`C16_then_filter*`, review 2 item 7) – and the 
 `--excl-br-*` options, which does not look at `--branch` (`C16_main_branch_flag_irrelevant`,
 `C16_run_jacoco_branch_flag_irrelevant`: JaCoCo reports carry branch data with and without it);
 the documentation observation of review item 36 (stop line "part of this section") is recorded there.
+`Props/C16Regex.lean`: the six options as PATTERNS of the `regex` crate – parser, specification and matcher of a stated subset of its syntax in the model (`C16_regex_*`), the rule above restated with patterns instead of bits, literal / anchored / `LCOV_EXCL_*` markers, invalid values (exit 2).
 Specification vocabulary (review 2 item 33): `lineAt`, `Marks`, `inRegion`, `lineMarker` … `inBrRegion`,
 `removesLine`, `removesBranch`, `lineDim`, `brDim` occur in the statements and are run by no driver op –
 on purpose: they are the property text written down (quantifier form), not mirrors of Rust code. Their
@@ -51,6 +52,7 @@ harness.
 import GrcovModel.Lemmas.FileFilter
 import GrcovModel.Props.C16Run
 import GrcovModel.Props.C16Filter
+import GrcovModel.Props.C16Regex
 namespace Grcov.Props.C16
 open Grcov AList Grcov.FileFilter
 
